@@ -47,7 +47,7 @@ func runC09(c *Ctx) {
 			seedT := b.Of(e.Results[0], e.Instr)
 			if errT.Is("nil") {
 				nOK++
-				r.Check(mustPass(fn, e.Instr.Block(), plainEdges(gate)), "C09.gate.validated", c.ipos(e.Instr), "seed returned only after MnemonicToEntropy(mnemonic) returned no error")
+				r.Check(exitMustPass(fn, e, plainEdges(gate)), "C09.gate.validated", c.ipos(e.Instr), "seed returned only after MnemonicToEntropy(mnemonic) returned no error")
 				_, ok := ana.MatchX(c.P, want, seedT)
 				r.Check(ok, "C09.pbkdf2-args.term", c.ipos(e.Instr), "seed term: %s", short(seedT.String(), 500))
 			} else {
